@@ -64,26 +64,26 @@ def GS(gs, width=None):
 
 
 def P(a):
-    return PA.Pauli(G(a[0]), int(a[1]))
+    return _reg(PA.Pauli(G(a[0]), int(a[1])), 'P', [[int(v) for v in a[0]], int(a[1])])
 
 
 def PL(l, width=None):
     gs = GS([a[0] for a in l], width)
     ps = np.array([a[1] for a in l], dtype=I_)
-    return PA.PauliList(gs, ps)
+    return _reg(PA.PauliList(gs, ps), 'PL', [[[int(v) for v in a[0]], int(a[1])] for a in l])
 
 
 def CM(l):
     gs = GS([a[0] for a in l])
     ps = np.array([a[1] for a in l], dtype=I_)
-    return ST.CliffordMap(gs, ps)
+    return _reg(ST.CliffordMap(gs, ps), 'PL', [[[int(v) for v in a[0]], int(a[1])] for a in l])
 
 
 def STATE(t):
     rows, r = t
     gs = GS([a[0] for a in rows])
     ps = np.array([a[1] for a in rows], dtype=I_)
-    return ST.StabilizerState(gs, ps=ps).set_r(int(r))
+    return _reg(ST.StabilizerState(gs, ps=ps).set_r(int(r)), 'ST', [[[[int(v) for v in a[0]], int(a[1])] for a in rows], int(r)])
 
 
 def oP(p):
@@ -112,10 +112,58 @@ def optmask(m):
     return _maskform(np.array(m, dtype=np.bool_))
 
 
-def guard(f):
-    def w(*a):
+# ---- argument watch: every object the adapter builds from plain values during one op call is remembered; when the call returns, all of them except the
+# designated receivers (RCV) of in-place methods must still hold exactly the values they were built from.  Violations are queued in MUT_EVENTS and turned
+# into oracle failures by vlib.run.do ("an operation modified its argument").
+_BUILT = []
+MUT_EVENTS = []
+
+
+def _reg(obj, kind, desc):
+    _BUILT.append([obj, kind, desc, False])
+    return obj
+
+
+def RCV(obj):
+    """the receiver of an in-place method: allowed to change"""
+    for e in _BUILT:
+        if e[0] is obj:
+            e[3] = True
+    return obj
+
+
+def _current(obj, kind):
+    if kind == 'P':
+        return oP(obj)
+    if kind == 'ST':
+        return oST(obj)
+    return oPL(obj)
+
+
+def _watch_begin():
+    del _BUILT[:]
+
+
+def _watch_end(opname):
+    for obj, kind, desc, rcv in _BUILT:
+        if rcv:
+            continue
         try:
-            return f(*a)
+            now = _current(obj, kind)
+        except Exception as e:      # the object no longer holds integer bits / phases
+            now = 'unreadable: %s' % type(e).__name__
+        if now != desc:
+            MUT_EVENTS.append({'op': opname, 'kind': kind, 'before': desc, 'after': now})
+    del _BUILT[:]
+
+
+def guard(f, name='?'):
+    def w(*a):
+        _watch_begin()
+        try:
+            r = f(*a)
+            _watch_end(name)
+            return r
         except (ValueError, AssertionError, NotImplementedError, TypeError, IndexError, Exception) as e:   # noqa
             return Err(1)
     return w
@@ -185,7 +233,7 @@ def seed_numba(s):
 
 def measure_raw(t, obs):
     """run StabilizerState.measure; return (state, outs, lp)"""
-    s = STATE(t)
+    s = RCV(STATE(t))
     o = PL(obs, width=s.gs.shape[1])
     out, lp = s.measure(o)
     return s, [int(v) for v in out], lp
@@ -196,7 +244,7 @@ OPS = {}
 
 def op(name):
     def d(f):
-        OPS[name] = guard(f)
+        OPS[name] = guard(f, name)
         return f
     return d
 
@@ -233,17 +281,17 @@ def _(n, C, rows):
     return [[[int(v) for v in g], int(p)] for g, p in zip(gs, ps)]
 @op('transform')
 def _(m, mask, l):
-    o = PL(l)
+    o = RCV(PL(l))
     o.transform_by(CM(m), mask=optmask(mask))
     return oPL(o)
 @op('rotate')
 def _(gen, mask, l):
-    o = PL(l)
+    o = RCV(PL(l))
     o.rotate_by(P(gen), mask=optmask(mask))
     return oPL(o)
 @op('rotate_seq')
 def _(gms, l):
-    o = PL(l)
+    o = RCV(PL(l))
     for gen, mask in gms:
         o.rotate_by(P(gen), mask=optmask(mask))
     return oPL(o)
@@ -272,7 +320,7 @@ def _(a, b): return oPL(CM(a).compose(CM(b)))
 @op('inverse')
 def _(a): return oPL(CM(a).inverse())
 @op('embed')
-def _(big, small, m): return oPL(CM(big).embed(CM(small), MASK(m)))
+def _(big, small, m): return oPL(RCV(CM(big)).embed(CM(small), MASK(m)))
 @op('rotation_map')
 def _(gen): return oPL(ST.clifford_rotation_map(P(gen)))
 @op('map_to_state')
@@ -325,24 +373,24 @@ def _(t, m): return int(STATE(t).entropy(np.array(m, dtype=np.bool_)))
 def _(n, gs, m): return int(U.stabilizer_entropy(GS(gs, 2 * n), np.array(m, dtype=np.bool_)))
 @op('state_rotate')
 def _(gen, mask, t):
-    s = STATE(t)
+    s = RCV(STATE(t))
     s.rotate_by(P(gen), mask=optmask(mask))
     return oST(s)
 @op('state_transform')
 def _(m, mask, t):
-    s = STATE(t)
+    s = RCV(STATE(t))
     s.transform_by(CM(m), mask=optmask(mask))
     return oST(s)
 @op('named_gate_map')
 def _(nm, qs): return oPL(mk_gate([qs, [2, nm]]).forward_map)
 @op('gate_forward')
 def _(n, g, l):
-    o = PL(l)
+    o = RCV(PL(l))
     mk_gate(g).forward(o)
     return oPL(o)
 @op('gate_backward')
 def _(n, g, l):
-    o = PL(l)
+    o = RCV(PL(l))
     mk_gate(g).backward(o)
     return oPL(o)
 @op('gate_compile')
